@@ -1,7 +1,7 @@
 (* C17 (hex part) and C15 (unhexify reads only its input string).
    This file contains only statements, each closed by [exact], with Print Assumptions. *)
 From Coq Require Import NArith List.
-From LCP Require Import Base.CheckedMem Gen.Repo_codec Util.Hex Util.HexProofs.
+From LCP Require Import Base.CheckedMem Gen.Repo_codec Util.Hex Util.HexProofs Util.HexRaw.
 Import ListNotations.
 
 (* hexify with the table now in util/hexify.c writes the lowercase hex spec plus a NUL *)
@@ -29,3 +29,12 @@ Theorem C17_unhexify_inverts_hexify :
               unhexify_m hexchars (cstr enc) (length bs) = Ok (Some bs).
 Proof. exact unhexify_hexify. Qed.
 Print Assumptions C17_unhexify_inverts_hexify.
+
+(* C15: on a raw block WITHOUT a terminator that holds at least 2*len bytes, unhexify equals the
+   spec decoder and never faults: it looks at the first 2*len bytes only (a read at in[2*len] of a
+   block of exactly 2*len bytes would be a Fault) *)
+Theorem C15_unhexify_reads_only_2len :
+  forall buf len, bytes_ok buf -> (2 * len <= length buf)%nat ->
+  unhexify_m hexchars buf len = Ok (unhex_spec buf len).
+Proof. exact unhexify_raw_block. Qed.
+Print Assumptions C15_unhexify_reads_only_2len.
